@@ -55,6 +55,53 @@ let rec texpr_of (s : sexp) : texpr =
   | L [A "rule"; r; k] -> TRule (n_of_int (atom_int r), sk_of k)
   | _ -> failwith "texpr_of: bad sexp"
 
+(* ---- pest AST (for the PEG spec) ---- *)
+let builtin_of = function
+  | "ANY" -> BAny | "SOI" -> BSoi | "EOI" -> BEoi | "PEEK" -> BPeek | "PEEK_ALL" -> BPeekAll | "POP" -> BPop
+  | "POP_ALL" -> BPopAll | "DROP" -> BDrop | "NEWLINE" -> BNewline | "ASCII_DIGIT" -> BAsciiDigit
+  | "ASCII_NONZERO_DIGIT" -> BAsciiNonzeroDigit | "ASCII_BIN_DIGIT" -> BAsciiBinDigit | "ASCII_OCT_DIGIT" -> BAsciiOctDigit
+  | "ASCII_HEX_DIGIT" -> BAsciiHexDigit | "ASCII_ALPHA_LOWER" -> BAsciiAlphaLower | "ASCII_ALPHA_UPPER" -> BAsciiAlphaUpper
+  | "ASCII_ALPHA" -> BAsciiAlpha | "ASCII_ALPHANUMERIC" -> BAsciiAlphanumeric | "ASCII" -> BAscii
+  | "WHITESPACE" | "COMMENT" -> BUndefinedSkip
+  | s -> failwith ("builtin " ^ s)
+
+let ident_of = function
+  | L [A "rule"; i] -> IdRule (n_of_int (atom_int i))
+  | L [A "builtin"; A name] -> IdBuiltin (builtin_of name)
+  | L [A "unicode"; i] -> IdUnicode (n_of_int (atom_int i))
+  | _ -> failwith "ident"
+
+let zopt = function A "none" -> None | x -> Some (z_of_int (atom_int x))
+
+let rec oexpr_of (s : sexp) : oexpr =
+  match s with
+  | L [A "str"; A h] -> OStr (bytes_of_hex h)
+  | L [A "insens"; A h] -> OInsens (bytes_of_hex h)
+  | L [A "range"; lo; hi] -> ORange (n_of_int (atom_int lo), n_of_int (atom_int hi))
+  | L [A "ident"; i] -> OIdent (ident_of i)
+  | L [A "peekslice"; a; b] -> OPeekSlice (z_of_int (atom_int a), zopt b)
+  | L [A "pospred"; e] -> OPosPred (oexpr_of e)
+  | L [A "negpred"; e] -> ONegPred (oexpr_of e)
+  | L [A "seq"; a; b] -> OSeq (oexpr_of a, oexpr_of b)
+  | L [A "choice"; a; b] -> OChoice (oexpr_of a, oexpr_of b)
+  | L [A "opt"; e] -> OOpt (oexpr_of e)
+  | L [A "rep"; e] -> ORep (oexpr_of e)
+  | L [A "skip"; L ss] -> OSkip (List.map (function A h -> bytes_of_hex h | _ -> failwith "skip") ss)
+  | L [A "push"; e] -> OPush (oexpr_of e)
+  | L [A "restore"; e] -> ORestore (oexpr_of e)
+  | _ -> failwith "oexpr"
+
+let kind_of = function
+  | "normal" -> KNormal | "silent" -> KSilent | "atomic" -> KAtomic | "compound" -> KCompound | "nonatomic" -> KNonAtomic
+  | s -> failwith ("kind " ^ s)
+
+let ast_rules : (int, orule) Hashtbl.t = Hashtbl.create 16
+let ast_ws : n option ref = ref None
+let ast_cm : n option ref = ref None
+let have_ast = ref false
+(* unicode predicate tables of the AST side are indexed by the global property index *)
+let upred_tabs : (int, (int, unit) Hashtbl.t) Hashtbl.t = Hashtbl.create 16
+
 (* ---- environment ---- *)
 let rule_names : (int, string) Hashtbl.t = Hashtbl.create 16
 let rule_defs : (int, rdef) Hashtbl.t = Hashtbl.create 16
@@ -70,6 +117,7 @@ let shapes : shape list ref = ref []
 
 let set_env (items : sexp list) =
   Hashtbl.reset rule_names; Hashtbl.reset rule_defs; Hashtbl.reset pred_tabs;
+  Hashtbl.reset ast_rules; Hashtbl.reset upred_tabs; have_ast := false; ast_ws := None; ast_cm := None;
   List.iter (function
     | L [A "skip"; A "empty"] -> cur_skip := SkipEmpty
     | L [A "skip"; L [A "rep"; e]] -> cur_skip := SkipRep (texpr_of e)
@@ -93,6 +141,22 @@ let set_env (items : sexp list) =
               List.iter (fun c -> Hashtbl.replace t (atom_int c) ()) cps;
               Hashtbl.replace pred_tabs (atom_int i) t
           | _ -> failwith "pred") ps
+    | L (A "ast" :: L [A "ws"; ws] :: L [A "cm"; cm] :: rs) ->
+        have_ast := true;
+        ast_ws := (match ws with A "none" -> None | x -> Some (n_of_int (atom_int x)));
+        ast_cm := (match cm with A "none" -> None | x -> Some (n_of_int (atom_int x)));
+        List.iter (function
+          | L [A "rule"; i; A kind; e] ->
+              let idx = atom_int i in
+              Hashtbl.replace ast_rules idx { o_name = n_of_int idx; o_kind = kind_of kind; o_expr = oexpr_of e }
+          | _ -> failwith "ast rule") rs
+    | L (A "upreds" :: ps) ->
+        List.iter (function
+          | L (i :: cps) ->
+              let t = Hashtbl.create 16 in
+              List.iter (fun c -> Hashtbl.replace t (atom_int c) ()) cps;
+              Hashtbl.replace upred_tabs (atom_int i) t
+          | _ -> failwith "upred") ps
     | _ -> failwith "env item") items
 
 let mk_env (i : inp) : env =
@@ -193,6 +257,21 @@ let res_a (r : (nat * tnode) ares) : string =
   | APanic -> "PANIC"
   | AFuel -> "FUEL"
 
+let mk_penv (i : inp) : penv =
+  { p_inp = i;
+    p_rules = (fun r -> try Some (Hashtbl.find ast_rules (int_of_n r)) with Not_found -> None);
+    p_ws = !ast_ws; p_comment = !ast_cm;
+    p_pred = (fun p c -> try Hashtbl.mem (Hashtbl.find upred_tabs (int_of_n p)) (int_of_n c) with Not_found -> false);
+    p_eoi = n_of_int !cur_eoi }
+
+let res_g (r : pres) : string =
+  match r with
+  | POk (off, stk, toks) ->
+      Printf.sprintf "ok@%d:%s" (int_of_nat off) (String.concat "" (List.map tok_dbg toks))
+  | PFail -> "fail"
+  | PPanic -> "PANIC"
+  | PFuel -> "FUEL"
+
 let res_c (start : nat) (r : nat res) : string =
   match r with
   | Ok (off, st) -> Printf.sprintf "ok@%d;S:%s;T:%s" (int_of_nat off) (stack_dbg st.stk) (tracker_dbg start st)
@@ -236,18 +315,19 @@ let run_input form hex a b =
           | Fail st -> Printf.sprintf "fail;T:%s" (tracker_dbg start st)
           | Panic -> "PANIC" | Fuel -> "FUEL" in
         let ar = aparse e fuel true (TRule (r, SkOn)) start [] in
-        Printf.printf "%s|%s|%s|%d|%d|P:%s|C:%s|FP:%s|FC:%s|TK:%s|A:%s\n" id form hex a b
-          (res_p start p) (res_c start c) fps fcs tk (res_a ar))
+        let g = if !have_ast && idx <> !cur_eoi then "|G:" ^ res_g (peg_entry (mk_penv i) fuel r) else "" in
+        Printf.printf "%s|%s|%s|%d|%d|P:%s|C:%s|FP:%s|FC:%s|TK:%s%s|A:%s\n" id form hex a b
+          (res_p start p) (res_c start c) fps fcs tk g (res_a ar))
     (List.rev !shapes)
 
 let run_stack (ops : sexp list) =
   let rec conv = function
     | [] -> []
-    | A "p" :: s :: e :: rest -> OPush (nat_of_int (atom_int s), nat_of_int (atom_int e)) :: conv rest
-    | A "o" :: rest -> OPop :: conv rest
-    | A "s" :: rest -> OSnapshot :: conv rest
-    | A "r" :: rest -> ORestore :: conv rest
-    | A "c" :: rest -> OClear :: conv rest
+    | A "p" :: s :: e :: rest -> SoPush (nat_of_int (atom_int s), nat_of_int (atom_int e)) :: conv rest
+    | A "o" :: rest -> SoPop :: conv rest
+    | A "s" :: rest -> SoSnapshot :: conv rest
+    | A "r" :: rest -> SoRestore :: conv rest
+    | A "c" :: rest -> SoClear :: conv rest
     | _ -> failwith "stack op" in
   match sop_run stack_new (conv ops) with
   | MOk s -> print_endline (stack_dbg s)
